@@ -214,6 +214,8 @@ pub fn check(id: &str, tier: Tier) -> Result<Report, String> {
         "C22" => crate::e2b::check_c22(tier),
         "C24" => crate::e2c::check_c24(tier),
         "C27" => crate::e2d::check_c27(tier),
+        "C14" => crate::adv::check_c14(tier),
+        "C01" => crate::c01::check_c01(tier),
         "C23" => crate::e2f::check_c23(tier),
         "C28" => crate::e2f::check_c28(tier),
         _ => return Err(format!("no check for {id}")),
@@ -230,6 +232,12 @@ pub fn replay_other(v: &serde_json::Value) -> i32 {
             return crate::e2::replay_verdict(v, f, again);
         }
         return crate::e2::replay(v);
+    }
+    if matches!(v["engine"].as_str(), Some("c01bytes") | Some("c01script")) {
+        return crate::c01::replay(v);
+    }
+    if v["engine"].as_str() == Some("adv") {
+        return crate::adv::replay(v);
     }
     if v["engine"].as_str() == Some("c18pair") {
         let scripts: Vec<Script> = v["scripts"].as_array().map(|a| a.iter().filter_map(|x| serde_json::from_value(x.clone()).ok()).collect()).unwrap_or_default();
